@@ -6,6 +6,7 @@ import Helm.Model.Ledger
 import Helm.Lemmas.Ledger
 import Helm.Lemmas.RollbackFailure
 import Helm.Lemmas.UpgradeFailure
+import Helm.Lemmas.InstallFailure
 import Helm.Props.C02
 import Helm.Gen.Tables
 import Helm.Spec.Skeletons
@@ -151,6 +152,19 @@ theorem rollback_hook_failure_instance :
     (upgrade {} {} {} 9 (rollback { version := 1, nHooks := 1 } { preHook := .fail } l).1.ledger).2 = .success := by
   decide
 
+/-- A rollback whose update is rejected (`waitFails = false`) or whose readiness wait fails, on EVERY
+history with unique revisions: error; the revision it created is recorded as failed; on a
+rejected update the revision rolled back from is marked superseded (what the source does), on a
+failed wait it keeps its status; nothing else changes. -/
+theorem rollback_resource_failure_marks_failed (waitFails : Bool) (fl : RollbackFlags) (l : Ledger) (cur prevRec : Rec)
+    (hdry : fl.dryRun = false) (hmax : fl.maxHistory = 0) (hnd : (revs l).Nodup)
+    (hlast : last? l = some cur)
+    (hprev : get? l (if fl.version = 0 then cur.rev - 1 else fl.version) = some prevRec) :
+    (rollback fl (if waitFails then { wait := .fail } else { resources := .fail }) l).2 = .error ∧
+    (rollback fl (if waitFails then { wait := .fail } else { resources := .fail }) l).1.ledger =
+      (if waitFails then l else setStatus l cur.rev .superseded) ++ [⟨cur.rev + 1, .failed, prevRec.payload⟩] :=
+  rollback_resource_failure waitFails fl l cur prevRec hdry hmax hnd hlast hprev
+
 /-- ... whereas a failing update or wait of a rollback does mark it failed. -/
 theorem rollback_update_failure_marks_failed :
     let l : Ledger := [⟨1, .superseded, 1⟩, ⟨2, .deployed, 2⟩]
@@ -158,6 +172,18 @@ theorem rollback_update_failure_marks_failed :
       [⟨1, .superseded, 1⟩, ⟨2, .superseded, 2⟩, ⟨3, .failed, 1⟩] ∧
     (rollback { version := 1, nHooks := 1 } { wait := .fail } l).1.ledger =
       [⟨1, .superseded, 1⟩, ⟨2, .deployed, 2⟩, ⟨3, .failed, 1⟩] := by decide
+
+/-- With the atomic flag: whichever of the four cluster-side phases of an install fails (any number
+of hooks, hooks on or off), if the uninstall it triggers is itself fault-free the install returns
+an error and NO history remains for the release. -/
+theorem atomic_install_failure_leaves_nothing (at_ : FailAt) (fl : InstallFlags) (p : Nat)
+    (hdry : fl.dryRun = false) (hrep : fl.replace = false) (hatomic : fl.atomic = true)
+    (hhook : at_.needsHook = true → fl.disableHooks = false ∧ 0 < fl.nHooks) :
+    (install fl at_.faults {} p []).2 = .error ∧ (install fl at_.faults {} p []).1.ledger = [] :=
+  install_failure_atomic at_ fl p hdry hrep hatomic hhook
+
+example : (install { nHooks := 3, atomic := true } FailAt.postHook.faults {} 7 []).1.ledger = [] :=
+  (atomic_install_failure_leaves_nothing .postHook { nHooks := 3, atomic := true } 7 rfl rfl rfl (fun _ => ⟨rfl, by decide⟩)).2
 
 /-! ## upgrade: every history -/
 
